@@ -1,4 +1,5 @@
 import GwModel.Http
+import GwModel.HttpErrors
 import GwModel.HttpReq
 import GwModel.InjectLemmas
 import GwModel.Gen.Facts
@@ -15,11 +16,17 @@ open Http Facts
 def HttpFactsSafe : Prop :=
   Gen.parseRejectsNullOperations = true ∧ "batchIndexRange" ∈ Gen.injectGuards ∧ "indexNonNeg" ∈ Gen.injectGuards ∧
   "indexUpper" ∈ Gen.injectGuards ∧ "partsNonEmpty" ∈ Gen.injectGuards ∧ "leafMustBeNull" ∈ Gen.injectGuards ∧
-  Gen.batch.planErrAborts = true ∧ Gen.batch.plansAllBeforeExecuting = true
+  Gen.batch.planErrAborts = true ∧ Gen.batch.plansAllBeforeExecuting = true ∧ Gen.httpErrorsKeepMessages = true
 
 instance : Decidable HttpFactsSafe := by unfold HttpFactsSafe; exact inferInstance
 
 theorem facts_safe : HttpFactsSafe := by decide
+
+/-- **every error object of a response has a message** (the GraphQL specification requires one): whatever error an
+    operation ends with — a list with entries of any kind, or a single error — `formatErrorsWithCode` (model
+    `HttpErr.format`) writes only objects with a message -/
+theorem every_error_object_has_a_message (err : HttpErr.Err) (code : String) :
+    ∀ o ∈ HttpErr.format err code, o.message.isSome = true := HttpErr.format_has_message err code
 
 /-- a body that does not decode into operations: 422, one errors entry, nothing executed -/
 theorem malformed_body (plannable execOK : OpReq → Bool) (body : Option JV) (e : ParseErr)
